@@ -17,25 +17,25 @@ import (
 )
 
 type SpecEnv struct {
-	u       *Unit
-	st      *State
-	old     *State
-	vars    map[string]Val
-	oldVars map[string]Val
-	pkg     *packages.Package
-	fr      *Frame
-	depth   int
-	bound   int
+	u          *Unit
+	st         *State
+	old        *State
+	vars       map[string]Val
+	oldVars    map[string]Val
+	pkg        *packages.Package
+	fr         *Frame
+	depth      int
+	bound      int
 	boundNames map[string]bool
 	atExit     bool // evaluating the verified function's own postcondition
 	callSite   bool // evaluating a callee's contract at a call site
 }
 
 type specLoc struct {
-	loc    *Loc
-	whole  bool // whole backing array (s[*])
-	mapRef string
-	mapTy  *types.Map
+	loc     *Loc
+	whole   bool // whole backing array (s[*])
+	mapRef  string
+	mapTy   *types.Map
 	off, ln string // window of a wholly assigned slice
 }
 
@@ -154,6 +154,18 @@ func (e *SpecEnv) expr(x ast.Expr) Val {
 	case *ast.SelectorExpr:
 		return e.selector(n)
 	case *ast.IndexExpr:
+		if id, ok := n.X.(*ast.Ident); ok && e.pkg != nil {
+			if _, shadow := e.vars[id.Name]; !shadow {
+				if o, ok := e.pkg.Types.Scope().Lookup(id.Name).(*types.Var); ok {
+					if g := e.u.ctx.globalOf(o); g != nil {
+						if _, ok := e.u.ctx.frozenGlobal(g); ok {
+							i := e.coerce(e.expr(n.Index), types.Typ[types.Int])
+							return Val{T: fmt.Sprintf("(%s %s)", e.u.frozenFn(g), i.T), Ty: o.Type().Underlying().(*types.Slice).Elem()}
+						}
+					}
+				}
+			}
+		}
 		a := e.expr(n.X)
 		i := e.coerce(e.expr(n.Index), types.Typ[types.Int])
 		switch t := a.Ty.Underlying().(type) {
